@@ -128,7 +128,13 @@ class TimeFormatHarness(Harness):
     else:
       unit = 1 / fps
 
+    # the same time is first written under another frame rate: what one write leaves behind must not leak into the next
+    decoy_fps = Fraction(25) if fps != Fraction(25) else Fraction(30)
+    decoy = imsc_attr.TemporalAttributeWritingContext(frame_rate=decoy_fps if fps is not None else None, time_expression_syntax=eff)
+
     def roundtrip(t):
+      if fps is not None and eff is not TES.clock_time:
+        call(ex, imsc_attr.to_time_format, decoy, t)
       text, exc_ = call(ex, imsc_attr.to_time_format, ctx, t)
       if exc_:
         ex.fail("C05:writer-fails", dict(det, site=exc_[1], exc=type(exc_[0]).__name__))
@@ -255,7 +261,67 @@ def doc_adjacent_text():
   return doc
 
 
-STATIC_DOCS = [("styles", doc_styles), ("ruby-with-delimiters", doc_ruby), ("adjacent-text-nodes", doc_adjacent_text)]
+def _simple(doc):
+  body, div, p = model.Body(doc), model.Div(doc), model.P(doc)
+  doc.set_body(body)
+  body.push_child(div)
+  div.push_child(p)
+  return body, div, p
+
+
+def doc_partial_decoration():
+  """text decoration components left unspecified are inherited: span says only noUnderline inside a struck-through p"""
+  doc = model.ContentDocument()
+  doc.set_lang("en")
+  body, div, p = _simple(doc)
+  p.set_style(SP.TextDecoration, styles.TextDecorationType(line_through=True))
+  for txt, td in (("A", styles.TextDecorationType(underline=False)), ("B", styles.TextDecorationType(overline=True)),
+                  ("C", styles.TextDecorationType(line_through=False, underline=True)), ("D", None)):
+    sp = model.Span(doc)
+    if td is not None:
+      sp.set_style(SP.TextDecoration, td)
+    sp.push_child(model.Text(doc, txt))
+    p.push_child(sp)
+  return doc
+
+
+def doc_cells(rows, cols):
+  """cell resolution with the given grid and a region in cell units (a lost ttp:cellResolution rescales it)"""
+  def mk():
+    L, U = styles.LengthType, styles.LengthType.Units
+    doc = model.ContentDocument()
+    doc.set_lang("en")
+    doc.set_cell_resolution(model.CellResolutionType(rows=rows, columns=cols))
+    r = model.Region("r1", doc)
+    r.set_style(SP.Origin, styles.CoordinateType(x=L(4, U.c), y=L(3, U.c)))
+    r.set_style(SP.Extent, styles.ExtentType(height=L(6, U.c), width=L(20, U.c)))
+    doc.put_region(r)
+    body, div, p = _simple(doc)
+    div.set_region(r)
+    sp = model.Span(doc)
+    sp.set_style(SP.FontSize, L(2, U.c))
+    sp.push_child(model.Text(doc, "A"))
+    p.push_child(sp)
+    return doc
+  return mk
+
+
+def doc_two_shadows():
+  L, U = styles.LengthType, styles.LengthType.Units
+  doc = model.ContentDocument()
+  doc.set_lang("en")
+  body, div, p = _simple(doc)
+  sp = model.Span(doc)
+  Sh = styles.TextShadowType.Shadow
+  sp.set_style(SP.TextShadow, styles.TextShadowType((Sh(L(1, U.em), L(2, U.em)), Sh(L(3, U.pct), L(4, U.pct), L(1, U.pct), styles.NamedColors.red.value))))
+  sp.push_child(model.Text(doc, "A"))
+  p.push_child(sp)
+  return doc
+
+
+STATIC_DOCS = [("styles", doc_styles), ("ruby-with-delimiters", doc_ruby), ("adjacent-text-nodes", doc_adjacent_text),
+               ("partial-decoration", doc_partial_decoration), ("cells-32x24", doc_cells(24, 32)), ("cells-40x15", doc_cells(15, 40)),
+               ("cells-32x15", doc_cells(15, 32)), ("cells-40x24", doc_cells(24, 40)), ("two-shadows", doc_two_shadows)]
 
 TIMED = [
   ("timed-simple", [["r1", "b e"]], ["body", "", [["div", "r=r1", [["p", "b e", [S("A", "")]], ["p", "b", [S("B", "c=red")]]]]]]),
@@ -288,7 +354,7 @@ class RoundTripHarness(Harness):
   outside = ("numeric style values beyond the menu (they cross a %g formatting boundary that cannot be symbolic)",
              "frames / clock_time_with_frames syntaxes in the structural round trip (their time arithmetic is c05_times)")
   required_witnesses = ("static", "timed")
-  bounds = {"quick": "3 static documents + 3 timed skeletons (millisecond-grid symbolic times, symbolic query time), writer configs {none, clock_time}",
+  bounds = {"quick": "9 static documents + 3 timed skeletons (millisecond-grid symbolic times, symbolic query time), writer configs {none, clock_time}",
             "thorough": "same"}
   budget_s = {"quick": 280, "thorough": 900}
   validate_models = 3
